@@ -21,7 +21,7 @@ TRUSTED = [
     "PRQL_VERSION_OVERRIDE does not change while compilations run",
     "real hash seeds and OS schedules are SAMPLED (fresh processes, repeated in-process compiles: every HashMap gets a new RandomState key; 16 threads released by a barrier)",
     "span.source_id is an index into the SourceTree it was built from: multi-file results are compared after renaming source ids to paths",
-    "hooks namegen-sites (44c332e) and pq-names (d5c1b7e), read through the process-global debug log (harness c11_names): under threads the log drops lines of other threads while a call holds a LogSuppressLock, so the thread comparison is a sub-multiset test",
+    "hooks namegen-sites (44c332e), pq-names (d5c1b7e) and namegen-state (123c8b6), collected by harness/src/bin/c11names.rs (its own `log::Log` with a thread-local buffer: a line is attributed to the call running on the thread that emitted it)",
     "entry closures handed to debug::log_entry do not panic and do not log (inventory rows `..:log_entry(closure)..` list what each does; MessageLogger formats the caller's arguments under the lock)",
     "correspondence harness (harness/src/c11.rs) and python comparison",
 ]
@@ -626,42 +626,71 @@ def run():
             ck.violation("restarting the debug log while another thread compiles breaks compile() for the rest of the process",
                          {"req": race, "got": a, "kind": "log-race"})
 
-    # ------------------------------------------------------------------ 7. generated-name state per call (hooks namegen-sites 44c332e, pq-names d5c1b7e)
+    # ------------------------------------------------------------------ 7. generated-name state per call (hooks namegen-sites 44c332e, pq-names d5c1b7e, namegen-state 123c8b6)
     # Every call of the name generators (`table_N`, `_expr_N`: sites anchor_split / assign_names / relvar, with what was already
-    # used) and the final name tables of the PQ context (verif:pq-names) must be a function of the call's input alone: the same
-    # lines, in the same order, whatever was compiled before in the process, and -- under one process-global log -- the lines of
-    # 16 concurrent calls must be exactly the multiset sum of the lines each call produces alone.
+    # used and the generator state before / after) and the final name tables of the PQ context (verif:pq-names) must be a
+    # function of the call's input alone: the same lines, in the same order, whatever was compiled before on the thread and
+    # whatever 15 other threads compile at the same time.  The lines are collected by harness/src/bin/c11names.rs, whose logger
+    # keeps them in a thread-local buffer: every line is attributed to the call that emitted it (the process-global debug log
+    # cannot do that: its suppression counter drops the lines of other threads while one call loads std).
+    names_bin = os.path.join(os.path.dirname(HARNESS_BIN), "c11names")
+
+    def run_names(batches, timeout=300):
+        harness_build()
+        def one(lines):
+            try:
+                pr = subprocess.run([names_bin], input="\n".join(json.dumps(x) for x in lines) + "\n", capture_output=True, text=True, timeout=timeout)
+            except (subprocess.TimeoutExpired, OSError) as ex:
+                return [{"hang": str(ex)[:100]}] * len(lines)
+            outs = [l for l in pr.stdout.split("\n") if l.strip()]
+            res = []
+            for k in range(len(lines)):
+                try:
+                    res.append(json.loads(outs[k]))
+                except (IndexError, ValueError):
+                    res.append({"abort": pr.returncode, "stderr": pr.stderr[-300:]})
+            return res
+        with cf.ThreadPoolExecutor(max_workers=NPROC) as ex:
+            return list(ex.map(one, batches))
+
     nreq = [r for r in reqs if not r.get("format")]
     nsel = [dict(r) for r in ck.rng.sample(nreq, min(len(nreq), ck.n(48, 300)))]
     nsel += [{"src": p, "format": False, "sig": False} for p in NAMEGEN_PROGRAMS]
     ref = {}
-    alone = run_procs("c11_names", [[{"steps": [r]}] for r in nsel], timeout=300)
+    alone = run_names([[{"steps": [r]}] for r in nsel])
     for r, ans in zip(nsel, alone):
         a = ans[0]
         st_ = (a.get("steps") or [None])[0] if isinstance(a, dict) else None
         if st_ is None:
-            ck.violation("c11_names: a compilation under the debug log hangs or aborts", {"req": r, "got": a}); continue
+            ck.violation("c11names: a compilation hangs or aborts", {"req": r, "got": a}); continue
         ref[json.dumps(r, sort_keys=True)] = st_
         ck.count("generated-names", json.dumps(["alone", r], sort_keys=True))
     total_lines = sum(len(v["names"]) for v in ref.values())
     ck.coverage["generated_names"] = {"requests": len(ref), "hook_lines_alone": total_lines,
-                                      "requests_that_generate_a_name": sum(1 for v in ref.values() if any('"old":null' in l or "_expr_" in l or "table_" in l for l in v["names"]))}
+                                      "requests_that_draw_a_name": sum(1 for v in ref.values() if any("verif:namegen-draw" in l or '"old":null' in l for l in v["names"]))}
     if ref and total_lines == 0:
         ck.violation("the tree under test emits no `verif:namegen` / `verif:pq-names` lines (hooks 44c332e / d5c1b7e missing, or harness built without cfg(prqlc_verif)): generated-name state cannot be observed",
                      {"kind": "hook-missing"}, no_input=True)
     keys = list(ref)
-    # histories
+
+    def first_diff(x, y):
+        for i_, (p_, q_) in enumerate(zip(x, y)):
+            if p_ != q_:
+                return {"index": i_, "here": p_[:300], "alone": q_[:300]}
+        return {"lines_here": len(x), "lines_alone": len(y)}
+
+    # histories on one thread
     hb = []
     for h in range(ck.n(24, 120)):
         steps = []
         for _ in range(ck.rng.choice([4, 7, 10])):
             steps.append({"src": ck.rng.choice(PANICKERS), "format": False, "sig": False} if ck.rng.random() < 0.15 else json.loads(ck.rng.choice(keys)))
         hb.append([{"steps": steps}])
-    for b, ans in zip(hb, run_procs("c11_names", hb, timeout=300)):
+    for b, ans in zip(hb, run_names(hb)):
         a = ans[0]
         got = a.get("steps") if isinstance(a, dict) else None
         if got is None:
-            ck.violation("c11_names: a history under the debug log hangs or aborts", {"steps": b[0]["steps"], "got": a}); continue
+            ck.violation("c11names: a history hangs or aborts", {"steps": b[0]["steps"], "got": a}); continue
         prev = "start"
         for st_, g_ in zip(b[0]["steps"], got):
             k = json.dumps(st_, sort_keys=True)
@@ -669,41 +698,32 @@ def run():
             if k in ref:
                 ck.stat("generated-names", "history-step:" + ("same" if g_ == ref[k] else "DIFFERENT"))
                 if g_ != ref[k]:
-                    diff = [(x, y) for x, y in zip(g_["names"], ref[k]["names"]) if x != y][:3]
-                    ck.violation("the names generated for a compilation depend on what was compiled before in the process",
-                                 {"src": st_.get("src"), "history": b[0]["steps"], "after": prev, "first_differences": diff,
-                                  "lines_here": len(g_["names"]), "lines_alone": len(ref[k]["names"]), "result_here": g_["r"], "result_alone": ref[k]["r"]})
+                    ck.violation("the names generated for a compilation depend on what was compiled before on the thread",
+                                 {"src": st_.get("src"), "history": b[0]["steps"], "after": prev, "first_difference": first_diff(g_["names"], ref[k]["names"]),
+                                  "result_here": g_["r"], "result_alone": ref[k]["r"]})
             prev = "panic" if "panic" in g_.get("r", {}) else "err" if "err" in g_.get("r", {}) else "ok"
-    # threads
+    # 16 threads at once, every call attributed exactly
     pb = []
-    for k_ in range(ck.n(10, 40)):
+    for k_ in range(ck.n(12, 40)):
         sel = [json.loads(ck.rng.choice(keys)) for _ in range(16)]
-        if k_ % 2 == 0:
+        if k_ % 3 == 0:
             sel = [sel[0]] * 16
-        pb.append([{"par": {"n": 16, "m": 2, "reqs": sel}}])
-    for b, ans in zip(pb, run_procs("c11_names", pb, timeout=300)):
+        pb.append([{"par": {"n": 16, "m": 3, "reqs": sel}}])
+    for b, ans in zip(pb, run_names(pb)):
         a = ans[0]
         par = b[0]["par"]
-        ck.count("generated-names", json.dumps(["threads", par["reqs"]], sort_keys=True))
-        if not isinstance(a, dict) or "names" not in a:
-            ck.violation("c11_names: 16 concurrent compilations under one debug log hang or abort", {"req": par, "got": a}); continue
-        want = {}
-        for r in par["reqs"]:
-            for l in ref[json.dumps(r, sort_keys=True)]["names"]:
-                want[l] = want.get(l, 0) + par["m"]
-        have = {}
-        for l in a["names"]:
-            have[l] = have.get(l, 0) + 1
-        # the debug log's suppression counter is process-global (LogSuppressLock while a call loads std): entries of OTHER
-        # threads are discarded meanwhile, so lines may be missing from the shared log -- but no line may appear that the
-        # calls do not produce alone, nor more often than they produce it
-        extra = [l for l in have if have[l] > want.get(l, 0)][:3]
-        missing = [l for l in want if want[l] > have.get(l, 0)][:3]
-        ck.stat("generated-names", "threads:" + ("same-multiset" if have == want else "sub-multiset(lines suppressed)" if not extra else "DIFFERENT"))
-        ck.stat("generated-names", "threads:lines-seen-of-expected:%d%%" % (10 * int(10 * sum(have.values()) / max(1, sum(want.values())))))
-        if extra:
-            ck.violation("the name-generator lines of 16 concurrent compilations are not the sum of the lines of each compilation alone (generated-name state is shared between calls)",
-                         {"reqs": par["reqs"], "unexpected_lines": extra, "missing_lines": missing})
+        if not isinstance(a, dict) or "threads" not in a:
+            ck.violation("c11names: 16 concurrent compilations hang or abort", {"req": par, "got": a}); continue
+        for i_, calls in enumerate(a["threads"]):
+            r = par["reqs"][i_ % len(par["reqs"])]
+            want = ref[json.dumps(r, sort_keys=True)]
+            for j_, g_ in enumerate(calls):
+                ck.count("generated-names", json.dumps(["threads", par["reqs"], i_, j_], sort_keys=True))
+                ck.stat("generated-names", "thread-call:" + ("same" if g_ == want else "DIFFERENT"))
+                if g_ != want:
+                    ck.violation("the names generated for a compilation depend on what other threads compile at the same time (or on earlier calls of the thread)",
+                                 {"src": r.get("src"), "thread": i_, "call": j_, "reqs": par["reqs"], "first_difference": first_diff(g_["names"], want["names"]),
+                                  "result_here": g_["r"], "result_alone": want["r"]})
 
     ck.proof_broken_violation(found_input=any(not ni for _, _, ni in ck.violations))
     ck.assumptions += [
